@@ -18,7 +18,7 @@ ENDS = ["shutdown:outside", "shutdown:payload", "sigint", "fail:asyncio", "fail:
 #: failures that leave accept() as something else than RuntimeError
 BASE_ENDS = ["fail:threading:SystemExit", "fail:asyncio:SystemExit", "fail:trio:UserBaseError",
              "fail:threading:GeneratorExit"]
-POPULATIONS = ["none", "sleepers", "blocked", "submitter", "shielded"]
+POPULATIONS = ["none", "sleepers", "blocked", "submitter", "shielded", "stubborn"]
 ACCEPT_DELAY = 1.0
 
 
@@ -52,6 +52,10 @@ class Scenario:
             kit.submit({"id": tag + "-trio", "flavour": "trio", "steps": [("forever", 0.4)],
                         "cleanup": ("shield", 2.0) if population == "shielded" else None})
             cleanup = 2.0 if population == "shielded" else 0.0
+        if population == "stubborn":
+            kit.submit({"id": tag + "-asyncio", "flavour": "asyncio",
+                        "steps": [("stubborn", 2, 0.3)]})
+            cleanup = 1.0
         if population == "blocked":
             kit.submit({"id": tag + "-blocked", "flavour": "threading", "steps": [("block",)]})
         record["cleanup"] = cleanup
@@ -292,7 +296,8 @@ def scenario_params(tier):
             continue
         if tier == "quick" and concurrent and stop_at == 0.0:
             continue
-        if tier == "quick" and thread == "second" and population in ("submitter", "shielded"):
+        if tier == "quick" and thread == "second" and population in (
+                "submitter", "shielded", "stubborn"):
             continue
         phase = {"end": end, "thread": thread, "population": population, "stop_at": stop_at,
                  "concurrent": concurrent, "sigint_cost": 1 if tier == "quick" else 0}
